@@ -279,6 +279,9 @@ def run(ctx):
     from .. import tagged as _tagged
     from ..gen import Gen as _Gen, Opts as _Opts, module_text as _module_text
     _tagged.run_set_order(ctx, 'C03', ctx.rng, ctx.n(50, 600), impl, ['der'], _Gen, _Opts, _module_text)
+    # time types vs X.690 11.7 / 11.8 / 8.26 worked out in harness/timefam.py
+    from .. import timefam as _timefam
+    _timefam.run(ctx, 'C03', ctx.rng, ctx.n(40, 500), ['der'])
 
 
 def sorted_members_differs(t, v, got, want):
